@@ -241,7 +241,7 @@ def run_case(spec):
         model = build_model(rng, prof)
         forest_entries = add_refgroup_config(rng, model) if rng.random() < 0.3 else []
         gitdir = G.write_model(model, os.path.join(d, "repo"), skip_empty_tree=rng.random() < 0.5,
-                               packed_refs=rng.random() < 0.3)
+                               packed_refs=rng.random() < 0.3 or getattr(model, "force_packed", False))
         allobjs = model.all_objects()
         msg = G.selfcheck(gitdir, {k: v for k, v in allobjs.items() if not (k == G.EMPTY_TREE)})
         if msg:
@@ -295,7 +295,43 @@ def build_model(rng, prof):
         return tree_model(rng)
     if prof == "roots":
         return roots_model(rng)
+    if prof == "scale":
+        return scale_model(rng)
     raise ValueError(prof)
+
+
+def scale_model(rng):
+    """Tens of thousands of commits, thousands of references and tags: sizes at which implementations switch code paths
+    (batching, background work, buffer growth) that small repositories never reach."""
+    pool = G.Pool(rng)
+    m = G.Model()
+    trees = [pool.new_tree(max_depth=2, max_entries=5) for _ in range(rng.choice([40, 300]))]
+    pool.tree = lambda **kw: rng.choice(trees)
+    n = rng.choice([21000, 26000, 34000, 52000, 70000])
+    shape = rng.choice(["linear", "random", "diamond", "multiroot", "crisscross"])
+    commits = G.gen_dag(rng, pool, n, shape=shape, ts=rng.choice(G.TS_PROFILES), hostile=False)
+    m.commits = commits
+    # the maxima sit in old / middle commits that few names reach
+    special = G.Commit(G.Tree([G.Entry(G.FILE, b"big.bin", pool.new_blob(60000)),
+                               G.Entry(G.TREE, b"wide", G.Tree([G.Entry(G.FILE, b"w%03d" % k, pool.new_blob(1)) for k in range(150)]))]),
+                       [commits[0]], cts=5, msg=b"special " * 500 + b"\n")
+    m.refs["refs/heads/special"] = special
+    nheads = rng.choice([3, 2500, 2500, 7000])
+    for i in range(nheads):
+        m.refs["refs/heads/b/%05d" % i] = commits[rng.randrange(n)] if i else commits[-1]
+    m.refs["refs/heads/main"] = commits[-1]
+    tags = []
+    for i in range(rng.choice([2, 300, 1500])):
+        t = G.Tag(commits[rng.randrange(n)] if rng.random() < 0.9 or not tags else rng.choice(tags), name=b"t%d" % i, ts=1 + i)
+        tags.append(t)
+        m.refs["refs/tags/t/%05d" % i] = t
+    for i in range(rng.choice([0, 200])):
+        m.refs["refs/remotes/origin/r%04d" % i] = commits[rng.randrange(n)]
+    m.tags = tags
+    m.pool = pool
+    m.force_packed = True
+    m.meta = {"shape": shape, "n": n, "refs": len(m.refs)}
+    return m
 
 
 def dag_model(rng):
@@ -461,6 +497,9 @@ def one_run(spec, rng, res, model, gitdir, d, sel, roots):
         amb["GIT_CONFIG_COUNT"] = str(n_ + 1)
     if rng.random() < 0.15:
         amb["GIT_TRACE"] = "1"
+    if rng.random() < 0.4:
+        # the processor count decides goroutine schedules and nothing else
+        amb["GOMAXPROCS"] = rng.choice(["1", "1", "2", "3", "32"])
     if rng.random() < 0.12 and getattr(model, "commits", None):
         # a graft file named by the caller's environment: grafts must never change what is traversed
         gf = os.path.join(d, "env-grafts-%d" % res["runs"])
